@@ -1056,3 +1056,11 @@ def _m81():
         input_var = ninja.var('in')
 """)
     _swap_handler(nw.rule_handler, old, cf.ninja_copy_file)
+
+
+@mutant('env_upgrade_v8_merged_into_v9')
+def _m82():
+    # Environment.load: the v8 step (extra_args) runs under `version < 9`
+    from bfg9000 import environment as benv
+    _patch_source(benv.Environment, 'load', "    if version < 8:\n        data['extra_args'] = []",
+                  "    if version < 9:\n        data['extra_args'] = []")
